@@ -475,8 +475,8 @@ func emitObs(w *caseWriter, o *pkgObs) {
 		w.line("member %s %d %d", xs(m.Name), m.Size, m.MTime)
 	}
 	pe := func(tag string, e pEntry) {
-		w.line("%s %s %s %d %s %s %d %d %s %s %s %d %d %s", tag, xs(e.Path), xs(e.Kind), e.Mode, xs(e.Uname), xs(e.Gname), e.MTime, e.Size,
-			xs(e.SHA256), xs(e.Link), xs(e.PaxSHA1), e.Flags, b2i(e.InPayload), xs(e.Format))
+		w.line("%s %s %s %d %s %s %d %d %s %s %s %d %d %s %s", tag, xs(e.Path), xs(e.Kind), e.Mode, xs(e.Uname), xs(e.Gname), e.MTime, e.Size,
+			xs(e.SHA256), xs(e.Link), xs(e.PaxSHA1), e.Flags, b2i(e.InPayload), xs(e.Format), xs(e.MD5))
 	}
 	for _, e := range o.Payload {
 		pe("pent", e)
@@ -685,6 +685,12 @@ func pkgWorkdir() (string, func()) {
 	must(os.WriteFile(filepath.Join(work, "src/big.bin"), big, 0o644))
 	t := time.Unix(1600000050, 0)
 	must(os.Chtimes(filepath.Join(work, "src/big.bin"), t, t))
+	big2 := make([]byte, 9*1024*1024/4)
+	for i := range big2 {
+		big2[i] = byte(r.Intn(251))
+	}
+	must(os.WriteFile(filepath.Join(work, "src/big2.bin"), big2, 0o644))
+	must(os.Chtimes(filepath.Join(work, "src/big2.bin"), t, t))
 	must(os.Chtimes(filepath.Join(work, "src"), time.Unix(1600000000, 0), time.Unix(1600000000, 0)))
 	must(os.Chdir(work))
 	return work, func() { os.Chdir("/"); os.RemoveAll(work) }
@@ -731,6 +737,10 @@ func cmdPkg(prop, tier string, seed int64, out, statsOut, replay string) {
 		case "C09":
 			genC09Subsets(w, st, g.rng, true)
 			n = n / 3
+		case "C03":
+			genC03Shapes(w, st)
+		case "C04":
+			genC04Shapes(w, st)
 		}
 		for i := 0; i < n; i++ {
 			gen := g.config(i)
